@@ -12,8 +12,11 @@ Local Open Scope Z_scope.
 Inductive exn :=
 | KeyError | IndexError | AssertionError | TypeError | ValueError
 | JellyConformanceError | JellyAssertionError | JellyNotImplementedError
-| StopIteration | NotImplementedError | ZeroDivisionError | AttributeError | RecursionError
+| StopIteration | NotImplementedError | ZeroDivisionError | AttributeError | RecursionError | RuntimeError
 | OutsideModel.   (* not a Python exception: a path the translation does not describe (the ties show it is not taken) *)
+
+(* PEP 479: a StopIteration that would leave the body of a generator is replaced by RuntimeError *)
+Definition gen_exn (e : exn) : exn := match e with StopIteration => RuntimeError | _ => e end.
 
 (* the outcome of a call: a value or a raised exception; the object's state is returned beside it
    in both cases (what a method changed before it raised stays changed) *)
@@ -36,6 +39,7 @@ Definition is_exn (e e' : exn) : bool :=
   | JellyNotImplementedError, JellyNotImplementedError
   | StopIteration, StopIteration | NotImplementedError, NotImplementedError
   | ZeroDivisionError, ZeroDivisionError | AttributeError, AttributeError | RecursionError, RecursionError
+  | RuntimeError, RuntimeError
   | OutsideModel, OutsideModel => true
   | _, _ => false
   end.
